@@ -532,7 +532,11 @@ func genC12(rng *rand.Rand, n int, thorough bool, emit func(string)) {
 		case k < 30:
 			emit(genFloatCase(rng))
 		case k < 75:
-			emit(genCtrlCase(rng))
+			cl := genCtrlCase(rng)
+			emit(cl)
+			if rng.Intn(3) == 0 {
+				emit("G" + cl) // the same for the back-off controller as translated (Gen/Backoff.lean)
+			}
 		default:
 			emit(genC12Conn(rng))
 		}
